@@ -27,7 +27,7 @@ DEFAULT_CFG = dict(
     import_cycles=True, self_import=0.1, dup_import=0.1, nested_xmlns=0.15, no_tns=0.0,
     adversarial_uris=False, reuse_names=False, shadow_names=0.0,
     ops=(1, 4), p_oneway=0.25, headers=(0, 2), p_parts_attr=0.5, p_part_name_differs=0.5, p_soap_action=0.7,
-    quarantine=(),
+    quarantine=(), attr_named_simple=True,
 )
 
 
@@ -185,6 +185,8 @@ class Gen:
             for _ in range(r.randrange(1, 3)):
                 nm = self.names.fresh(taken)
                 t = self.pick_simple_target(fidx)
+                if not t.builtin and not self.cfg.get("attr_named_simple", True):
+                    t = TypeRef(r.choice(list(BUILTINS)))
                 attrs.append(Attr(nm, t, r.random() < 0.4))
             self.features.add("attributes")
         return Content(group, attrs)
